@@ -580,7 +580,14 @@ def is_canonical(e):
 
 
 def real(x):
-    return x
+    # natively: the exact rational value of the float / int (postconditions over reals are then evaluated without rounding)
+    from fractions import Fraction
+    if isinstance(x, bool) or not isinstance(x, (int, float)):
+        return x
+    try:
+        return Fraction(x)
+    except (ValueError, OverflowError):
+        return x
 
 
 def floor(x):
@@ -648,7 +655,7 @@ SAMPLE_POOL = {
     'int': [0, 1, -1, 2, 3, -2, 5, 7, 10, 12, 26, 27, 60, 61, 255, -40, 1000],
     'float': [0.0, 0.5, -0.5, 1.0, 1.5, -1.5, 2.25, 3.7, -2.5, 61.25, 12345.678, -1e-3, 0.1],
     'str': ['', 'a', 'A', 'abc', 'abcd', 'ab', 'xabc', 'Abc Def', ' a  b ', '12', '35', '7', '57', '-3.5', '1e3', 'x*', 'a?c', '\tA\n', ' ', 'TRUE', '0',
-            u'été', u'中文', 'aXbXc', '#N/A', '1900-03-01', 'A1', '$B$2', 'ab\x01c'],
+            u'été', u'中文', u'a\xa0b', u'x\xady\x7f', 'aXbXc', '#N/A', '1900-03-01', 'A1', '$B$2', 'ab\x01c'],
     'date': [datetime.datetime(1900, 1, 1), datetime.datetime(1900, 2, 28), datetime.datetime(1900, 3, 1),
              datetime.datetime(1900, 3, 2), datetime.datetime(2000, 2, 29, 12, 30, 15), datetime.datetime(2024, 12, 31),
              datetime.datetime(1999, 12, 31, 23, 59, 59), datetime.datetime(9999, 12, 31)],
